@@ -26,6 +26,28 @@ mcmc = loader.load("inference.mcmc")
 
 UNI, NRM = dists.StubDist("uniform"), dists.StubDist("normal")
 
+def denotes(x, v):
+    """the argument x of a sampler call DENOTES the constant v (a python number, a symbolic scalar or an array whose
+    every element simplifies to v) - the way the constant is written must not matter"""
+    if isinstance(x, bool):
+        return False
+    if isinstance(x, (int, float)):
+        return float(x) == float(v)
+    if isinstance(x, Tensor):
+        idx = tuple(z3.Int("den!i%d" % k) for k in range(x.ndim))
+        e = z3.simplify(x.fn(idx))
+    elif isinstance(x, Sym):
+        e = z3.simplify(x.e)
+    else:
+        return False
+    return (z3.is_rational_value(e) or z3.is_int_value(e)) and float(e.as_fraction() if z3.is_rational_value(e) else e.as_long()) == float(v)
+
+
+def call_params_are(c, *vals):
+    return len(c["args"]) == len(vals) and all(denotes(a, v) for a, v in zip(c["args"], vals))
+
+
+
 
 class SaveRec:
     def __init__(self):
@@ -149,7 +171,7 @@ class MH(_NoReplay):
         yield "proposal_is_one_regenerate_of_the_selection_with_the_traces_arguments", len(g.calls) == 1 and len(rc) == 1 and rc[0][1][0] is self.tr and rc[0][1][1] is self.s and all(
             p is q for p, q in zip(rc[0][1][2:], self.args)
         ) and len(rc[0][1]) == 4 and set(rc[0][2]) == {"kw"} and rc[0][2]["kw"] is self.kw["kw"]
-        yield "one_uniform(0,1)_draw", len(UNI.sample_calls) == 1 and UNI.sample_calls[0]["args"] == (0.0, 1.0) and UNI.sample_calls[0]["sample_shape"] == ()
+        yield "one_uniform(0,1)_draw", len(UNI.sample_calls) == 1 and call_params_are(UNI.sample_calls[0], 0.0, 1.0) and UNI.sample_calls[0]["sample_shape"] == ()
         if len(UNI.sample_calls) != 1 or len(rc) != 1:
             return
         a = enc_args(self.args, self.kw)
@@ -311,7 +333,7 @@ class MALA(_Grad):
         gx = grad_at(g.SEL)
         # noise: one N(0,1) draw per coordinate
         ns = NRM.sample_calls
-        yield "standard_normal_noise_one_sample_call_per_leaf", len(ns) == 2 and all(c["args"] == (0.0, 1.0) for c in ns)
+        yield "standard_normal_noise_one_sample_call_per_leaf", len(ns) == 2 and all(call_params_are(c, 0.0, 1.0) for c in ns)
         i = fresh("i", z3.IntSort())
         if len(ns) == 2:
             noise1 = (prop["k1"] - g.SEL["k1"] - (E * E / 2) * gx["k1"])
@@ -329,7 +351,7 @@ class MALA(_Grad):
         w = g.D(self.a, enc(x2)) - g.D(self.a, enc(g.current))
         la = w + bwd - fwd
         log_alpha = z3.If(la >= 0, z3.RealVal(0), la)
-        yield "one_uniform(0,1)_draw", len(UNI.sample_calls) == 1 and UNI.sample_calls[0]["args"] == (0.0, 1.0)
+        yield "one_uniform(0,1)_draw", len(UNI.sample_calls) == 1 and call_params_are(UNI.sample_calls[0], 0.0, 1.0)
         if len(UNI.sample_calls) != 1:
             return
         u = dists.DrawR(UNI.id, UNI.sample_calls[0]["nonce"], z3.RealVal(0), z3.RealVal(1))
@@ -364,7 +386,7 @@ class HMC(_Grad):
             return
         g, eps, E = self.g, self.eps.e, self.eps
         ns = NRM.sample_calls
-        yield "standard_normal_momentum_one_sample_call_per_leaf", len(ns) == 2 and all(c["args"] == (0.0, 1.0) for c in ns)
+        yield "standard_normal_momentum_one_sample_call_per_leaf", len(ns) == 2 and all(call_params_are(c, 0.0, 1.0) for c in ns)
         scans = path.extra.get("scans", [])
         yield "one_scan_of_n_steps_iterations", len(scans) == 1 and z3.eq(z3.simplify(scans[0]["T"]), z3.simplify(self.L.e))
         if len(scans) != 1 or len(ns) != 2:
@@ -403,7 +425,7 @@ class HMC(_Grad):
         neg = {k: -pL[k] for k in ("k1", "k2")}
         la = (self.dens(xL) + K(neg)) - (self.dens(g.SEL) + K(mom0))
         log_alpha = z3.If(la >= 0, z3.RealVal(0), la)
-        yield "one_uniform(0,1)_draw", len(UNI.sample_calls) == 1 and UNI.sample_calls[0]["args"] == (0.0, 1.0)
+        yield "one_uniform(0,1)_draw", len(UNI.sample_calls) == 1 and call_params_are(UNI.sample_calls[0], 0.0, 1.0)
         if len(UNI.sample_calls) != 1 or len(uc) != 1:
             return
         u = dists.DrawR(UNI.id, UNI.sample_calls[0]["nonce"], z3.RealVal(0), z3.RealVal(1))
